@@ -44,9 +44,10 @@ const int kToken = 0;       // &kToken is the Event::extra of every run() call
 // setInitState and setSubStateMachine calls are interleaved as the scenario says, also between two lives of the
 // machines (stop(); newState/addRoute/...; start()).  The reference resolves every state id at run time.
 struct DRoute { int ev, to; bool guarded; uint32_t gmask; bool act; bool early0; };   // early0: target 0 was not (yet) user-defined when the route was added
-struct DHandler { int ev, to; uint32_t tmask; };
+struct DHandler { int ev, to; uint32_t tmask; int ver; };   // ver: 0 for the first addEvent() of this (state, event), +1 for every re-registration
+inline int hkey(const DHandler &h) { return h.ev + 8 * h.ver; }   // identity of a handler in the trace / hook table
 struct DState {
-  int id; bool en, ex; int sub;
+  int id; bool en, ex; int sub; int dups = 0;
   std::vector<DRoute> routes; std::vector<DHandler> handlers;
 };
 struct DMach {
@@ -56,6 +57,7 @@ struct DMach {
   int nnews = 0;                // newState() calls issued, duplicates included
   int attached_state = -1;      // state id in the parent machine (-1: not attached)
   int init_id = -1;             // -1: not set yet (the first newState() sets it)
+  bool init_set = false;        // setInitState() has been called
   const DState *find(int id) const { for (auto &s : states) if (s.id == id) return &s; return nullptr; }
   DState *find(int id) { for (auto &s : states) if (s.id == id) return &s; return nullptr; }
 };
@@ -145,6 +147,7 @@ struct Ref {
       stop_active_sub = false, sub_term_continue = false, term_reached = false, reent_done = false, refused_start = false,
       self_trans = false, stale_sub_parent_handles = false, handler_default = false, user_term = false, trans_in_depth3 = false;
   int transitions = 0, free_results = 0, top_starts = 0;
+  bool replaced_handler_asked = false, replaced_default_asked = false;   // the handler consulted had replaced an earlier one
   bool early_route_late0 = false;   // a route registered before newState(0, ...) led into the user-defined state 0
   // run() is documented to return "whether the state changed".  When a sub-machine changed state, thereby
   // terminated, and the machine itself then finds no transition for the same event, neither answer is fixed by
@@ -207,7 +210,8 @@ struct Ref {
     for (auto &x : s->handlers) if (x.ev == e) h = &x;
     if (!h) for (auto &x : s->handlers) if (x.ev == 0) { h = &x; handler_default = true; }
     if (h) {
-      emit(K_HANDLER, m, s->id, h->ev, e, s->id, FREE, r.last);
+      emit(K_HANDLER, m, s->id, hkey(*h), e, s->id, FREE, r.last);
+      if (h->ver > 0) { replaced_handler_asked = true; if (h->ev == 0) replaced_default_asked = true; }
       target = hval(*h, e, step, dm);
       bool route_would_match = false;
       for (auto &rt : s->routes) if ((rt.ev == 0 || rt.ev == e) && (!rt.guarded || gval(rt, e, step))) route_would_match = true;
@@ -336,11 +340,13 @@ struct Real {
     Real *R = this;
     if (notify) sm[k]->setStateChangedCallback([R, k](StateMachine::StateID f, StateMachine::StateID t, Event e) { R->hook(K_NOTIFY, k, f, t, e); });
   }
-  void newState(int k, int id, int flags, bool dup) {
+  // attempt: 0 for the first newState() of this id, 1.. for refused duplicates; it is reported by the actions so that
+  // a duplicate that replaced the state's actions instead of being refused would show in the trace
+  void newState(int k, int id, int flags, bool dup, int attempt) {
     Real *R = this;
     StateMachine::ActionFunc en, ex;
-    if (flags & 1) en = [R, k, id](Event e) { R->hook(K_ENTER, k, id, 0, e); };
-    if (flags & 2) ex = [R, k, id](Event e) { R->hook(K_EXIT, k, id, 0, e); };
+    if (flags & 1) en = [R, k, id, attempt](Event e) { R->hook(K_ENTER, k, id, attempt, e); };
+    if (flags & 2) ex = [R, k, id, attempt](Event e) { R->hook(K_EXIT, k, id, attempt, e); };
     bool ok = sm[k]->newState(id, en, ex);
     if (ok == dup) fail("newState(" + std::to_string(id) + ") on machine " + std::to_string(k) + " returned " + (ok ? "true for a duplicate" : "false for a new state"));
   }
@@ -355,7 +361,7 @@ struct Real {
   }
   void addHandler(int k, int sid, const DHandler &h) {
     Real *R = this;
-    if (!sm[k]->addEvent(sid, h.ev, [R, k, sid, h](Event e) -> StateMachine::StateID { R->hook(K_HANDLER, k, sid, h.ev, e); return hval(h, e.id, R->step, R->d->ms[k]); }))
+    if (!sm[k]->addEvent(sid, h.ev, [R, k, sid, h](Event e) -> StateMachine::StateID { R->hook(K_HANDLER, k, sid, hkey(h), e); return hval(h, e.id, R->step, R->d->ms[k]); }))
       fail("addEvent on an existing state returned false");
   }
   void setInit(int k, int id) { sm[k]->setInitState(id); }
@@ -381,6 +387,7 @@ struct Driver {
   Def d; Ref ref; Real R;
   int skipped_running = 0, defs_between_lives = 0;
   bool route0_before_state0 = false, state0_between_lives = false, unknown_target_refused = false, init_before_state = false,
+       handler_replaced = false, handler_replaced_between_lives = false, dup_state = false, sub_replaced = false, init_twice = false,
        attach_between_lives = false, state_between_lives = false, route_between_lives = false;
   Driver() : ref(&d), R(&d) {}
 
@@ -409,7 +416,8 @@ struct Driver {
         int id = (int)op.in(1, 0, 5), fl = (int)op.in(2, 0, 3);
         bool dup = m.find(id) != nullptr;
         ++m.nnews;
-        R.newState(k, id, fl, dup);
+        R.newState(k, id, fl, dup, dup ? ++m.find(id)->dups : 0);
+        if (dup) dup_state = true;
         if (dup) break;
         if (id == 0) for (auto &st : m.states) for (auto &rt : st.routes) if (rt.to == 0) route0_before_state0 = true;
         if (m.init_id == id) init_before_state = true;   // setInitState(id) came before newState(id)
@@ -437,12 +445,15 @@ struct Driver {
         int n = (int)m.states.size();
         if (!n) break;
         DState &st = m.states[op.in(1, 0, n - 1)];
-        DHandler h{(int)op.in(2, 0, 4), (int)op.in(3, 0, 5), (uint32_t)op.in(4, 0, 255)};
-        bool dup = false;
-        for (auto &x : st.handlers) if (x.ev == h.ev) dup = true;   // overriding a handler is undocumented: not generated
-        if (dup) break;
+        DHandler h{(int)op.in(2, 0, 4), (int)op.in(3, 0, 5), (uint32_t)op.in(4, 0, 255), 0};
+        // a second addEvent() for the same (state, event) REPLACES the handler (specific events and the any-event
+        // slot alike): the reference keeps the last one registered
+        DHandler *old = nullptr;
+        for (auto &x : st.handlers) if (x.ev == h.ev) old = &x;
+        if (old) h.ver = old->ver + 1;
         R.addHandler(k, st.id, h);
-        st.handlers.push_back(h);
+        if (old) { *old = h; handler_replaced = true; if (ref.top_starts > 0) handler_replaced_between_lives = true; }
+        else st.handlers.push_back(h);
         break; }
       case INIT: {
         int k = mach(op); DMach &m = d.ms[k];
@@ -450,17 +461,22 @@ struct Driver {
         // a nested machine must stay startable (a sub-machine that cannot start is outside the documented domain)
         if (k > 0 && !m.find(id)) break;
         R.setInit(k, id);
-        m.init_id = id;
+        if (m.init_set) init_twice = true;   // setInitState() again: the last call counts
+        m.init_id = id; m.init_set = true;
         break; }
       case ATTACH: {
         int k = mach(op); DMach &m = d.ms[k];
         if (k == 0 || m.attached_state >= 0 || !m.find(m.init_id)) break;
         DMach &p = d.ms[m.parent];
+        // sel 0..5: a parent state that has no sub-machine yet; sel 6..11: any parent state -- setSubStateMachine()
+        // on a state that already has one REPLACES it (the old sub-machine is detached and may be attached again later)
+        int sel = (int)op.in(1, 0, 11);
         std::vector<DState*> cand;
-        for (auto &st : p.states) if (st.sub < 0) cand.push_back(&st);
+        for (auto &st : p.states) if (sel >= 6 || st.sub < 0) cand.push_back(&st);
         if (cand.empty()) break;
-        DState *at = cand[op.in(1, 0, (int64_t)cand.size() - 1)];
+        DState *at = cand[(sel % 6) % cand.size()];
         R.attach(m.parent, at->id, k);
+        if (at->sub >= 0) { d.ms[at->sub].attached_state = -1; sub_replaced = true; }
         at->sub = k; m.attached_state = at->id;
         if (ref.top_starts > 0) attach_between_lives = true;
         break; }
@@ -475,7 +491,7 @@ struct Driver {
             if (hk == H_ACT && st.routes[i].act) hooks.push_back({mi, hk, st.id, i});
             if (hk == H_GUARD && st.routes[i].guarded) hooks.push_back({mi, hk, st.id, i});
           }
-          if (hk == H_HANDLER) for (auto &h : st.handlers) hooks.push_back({mi, hk, st.id, h.ev});
+          if (hk == H_HANDLER) for (auto &h : st.handlers) hooks.push_back({mi, hk, st.id, hkey(h)});
         }
         if (hk == H_NOTIFY && m.notify) hooks.push_back({mi, hk, 0, 0});
         if (hooks.empty()) break;
@@ -578,6 +594,13 @@ std::string run(const Scenario &scn, CaseInfo &info) {
   info.cls_if(D.attach_between_lives, "submachine_attached_between_lives");
   info.cls_if(D.skipped_running > 0, "definition_op_skipped_while_running");
   info.cls_if(ref.top_starts >= 2, "top_started>=2_times");
+  info.cls_if(D.handler_replaced, "handler_registered_again_for_same_state_event");
+  info.cls_if(D.handler_replaced_between_lives, "handler_replaced_between_lives");
+  info.cls_if(ref.replaced_handler_asked, "replacing_handler_consulted");
+  info.cls_if(ref.replaced_default_asked, "replacing_default_handler_consulted");
+  info.cls_if(D.dup_state, "duplicate_newState_refused");
+  info.cls_if(D.init_twice, "setInitState_called_again");
+  info.cls_if(D.sub_replaced, "submachine_replaced_by_second_setSubStateMachine");
   info.nontrivial = ref.max_depth_active >= 2 && ref.competing && ref.override_ && ref.stop_active_sub;
   return "";
 }
@@ -649,12 +672,16 @@ SubDef def = [] {
         int64_t gm = pick({{1, 0}, {2, 65535}, {7, -1}}); if (gm < 0) gm = rng(0, 65535);
         mk(ROUTE, {k, from < 0 ? rng(0, n - 1) : from, ev, to, guarded, gm, rng(0, 1)});
       };
-      auto handler = [&](int k, const std::vector<int64_t> &ids) {
+      std::vector<std::vector<std::pair<int64_t, int64_t>>> hreg(nm);   // (state index, event) pairs that already have a handler
+      auto handler = [&](int k, const std::vector<int64_t> &ids, int reuse_pct) {
         int n = (int)declared[k].size();
         int64_t ev = pick({{2, 0}, {4, 1}, {4, 2}, {1, 3}, {1, 4}});
+        int64_t sidx = rng(0, n - 1);
+        if (!hreg[k].empty() && rng(0, 99) < reuse_pct) { auto &pr = hreg[k][rng(0, (int64_t)hreg[k].size() - 1)]; sidx = pr.first; ev = pr.second; }   // register again: replaces the handler
+        hreg[k].push_back({sidx, ev});
         int64_t to = pick({{1, 0}, {12, -1}}); if (to < 0) to = ids[rng(0, (int64_t)ids.size() - 1)];   // possibly a state declared later
         int64_t tm = pick({{2, 0}, {1, 255}, {7, -1}}); if (tm < 0) tm = rng(0, 255);
-        mk(HANDLER, {k, rng(0, n - 1), ev, to, tm});
+        mk(HANDLER, {k, sidx, ev, to, tm});
       };
       for (int k = 0; k < nm; ++k) {
         int ns = (int)rng(2, 5);
@@ -682,9 +709,9 @@ SubDef def = [] {
           int n = (int)declared[k].size();
           if (it < 100) { mk(STATE, {k, ids[it], pick({{6, 3}, {1, 0}, {1, 1}, {1, 2}})}); declared[k].push_back(ids[it]); }
           else if (it == 100) route(k, -1);
-          else if (it == 101) handler(k, ids);
+          else if (it == 101) handler(k, ids, 25);
           else if (it == 102) mk(INIT, {k, k == 0 ? ids[rng(0, ns - 1)] : declared[k][rng(0, n - 1)]});
-          else if (it == 103) mk(ATTACH, {k, rng(0, 5)});
+          else if (it == 103) mk(ATTACH, {k, rng(0, 6) == 0 ? rng(6, 11) : rng(0, 5)});   // 1 in 7: any parent state, replacing the sub-machine it may have
           else mk(STATE, {k, declared[k][rng(0, n - 1)], rng(0, 3)});
         }
       }
@@ -699,7 +726,7 @@ SubDef def = [] {
             int k = (int)rng(0, nm - 1);
             int n = (int)declared[k].size();
             std::vector<int64_t> all = declared[k];
-            switch (pick({{4, 0}, {4, 1}, {2, 2}, {1, 3}, {1, 4}, {1, 5}})) {
+            switch (pick({{4, 0}, {4, 1}, {4, 2}, {1, 3}, {1, 4}, {1, 5}})) {
               case 0: {   // a new state (state 0 preferred when the machine has none), usually with a route out of it
                 std::vector<int64_t> missing;
                 for (int64_t id = 0; id <= 5; ++id) { bool have = false; for (auto x : declared[k]) if (x == id) have = true; if (!have) missing.push_back(id); }
@@ -710,9 +737,9 @@ SubDef def = [] {
                 if (rng(0, 1)) route(k, -1);
                 break; }
               case 1: route(k, -1); break;
-              case 2: handler(k, all); break;
+              case 2: handler(k, all, 60); break;
               case 3: mk(INIT, {k, declared[k][rng(0, n - 1)]}); break;
-              case 4: mk(ATTACH, {k, rng(0, 5)}); break;
+              case 4: mk(ATTACH, {k, rng(0, 11)}); break;
               default: reents(1); break;
             }
           }
